@@ -482,7 +482,7 @@ func cmdCheck(args []string) int {
 		path := writeReplay(replayDir, o, *prop)
 		suffix := ""
 		confirmed := false
-		if r.Status == "sat" && replaysTried < 4 {
+		if r.Status == "sat" && replaysTried < 2 {
 			replaysTried++
 			confirmed = tryReplay(p, o, path)
 		}
